@@ -265,7 +265,17 @@ class MonteCarlo(SingleDriver, Generic[MoveType, CriteriaType]):
 
         return dictionary
 
-    todict = to_dict
+    def todict(self) -> dict[str, Any]:
+        """
+        Dictionary used by ASE's JSON encoder (restart files). Delegates to `to_dict` at
+        call time so that subclasses overriding `to_dict` are written completely.
+
+        Returns
+        -------
+        dict[str, Any]
+            A dictionary representation of the `MonteCarlo` object.
+        """
+        return self.to_dict()
 
     @classmethod
     def from_dict(cls, data: dict[str, Any], **kwargs_override: Any) -> Self:
